@@ -14,7 +14,7 @@ REQUIRED_THEOREMS = ['build_hasShape', 'mapCells_hasShape', 'zipCells_hasShape',
                      'rebuilt_shape']
 RULE = ('random files (as C02) x random sequences of 1-6 operations (copy, sliceDimensions, applyAlongDimensions, '
         'subsetVariables, renameVariable, renameDimension, insertDimension, removeSingleton, reorderDimensions, '
-        'stack with itself, file arithmetic with itself, mask) with in-domain arguments plus ~10% out-of-domain '
+        'stack with itself, file arithmetic with itself and with a dimension-permuted copy, mask) with in-domain arguments plus ~10% out-of-domain '
         'ones; after EVERY step the real file is checked for well-formedness (oracle) and compared completely '
         '(dimensions with unlimited flags, variables, shapes, data, masks, attribute names) with the model; '
         'non-trivial = at least two variables with different dimension sets and an operation that changes a length')
@@ -79,6 +79,12 @@ def _case(rng):
             v['dtype'] = 'd'
     st = dict(dims={d[0]: d[1] for d in spec['dims']}, vars={v['name']: v['dims'] for v in spec['vars']})
     ops = [_op(rng, st) for _ in range(rng.randint(1, 6))]
+    if rng.random() < 0.15 and len(st['dims']) > 1:
+        # harness-only last step (not sent to the model, judged by the well-formedness oracle): arithmetic with a
+        # file whose variables have the same names but permuted dimensions (numpy broadcasting territory)
+        order = list(st['dims'])
+        rng.shuffle(order)
+        ops.append(['binopperm', rng.choice(['add', 'mul']), order])
     return dict(spec=spec, ops=ops)
 
 
@@ -112,6 +118,11 @@ def _apply(f, op):
     if k == 'binopself':
         import operator
         return {'add': operator.add, 'sub': operator.sub, 'mul': operator.mul, 'gt': operator.gt}[op[1]](f, f)
+    if k == 'binopperm':
+        import operator
+        other = f.reorderDimensions(list(f.dimensions), [d for d in op[2] if d in f.dimensions] +
+                                    [d for d in f.dimensions if d not in op[2]])
+        return {'add': operator.add, 'mul': operator.mul}[op[1]](f, other)
     if k == 'maskgt':
         return f.mask(greater=op[1])
     raise ValueError(k)
@@ -175,7 +186,7 @@ def _tok(op):
 
 def to_line(case, res):
     d, v, a = pfile.encode(case['spec'])
-    return 'c01 run %s %s %s %s' % (d, v, a, ' '.join(_tok(op) for op in case['ops']))
+    return 'c01 run %s %s %s %s' % (d, v, a, ' '.join(_tok(op) for op in case['ops'] if op[0] != 'binopperm'))
 
 
 def agree(case, out, res):
@@ -192,7 +203,8 @@ def agree(case, out, res):
         d = pfile.diff_obs_numeric(ms[3:], st['obs'])
         if d:
             return 'step %d (%s): %s' % (i, case['ops'][i][0], d)
-    if len(mstates) != len(res['states']):
+    nmodel = len([op for op in case['ops'] if op[0] != 'binopperm'])
+    if len(mstates) != min(len(res['states']), nmodel):
         return 'model ran %d steps, impl %d' % (len(mstates), len(res['states']))
     return None
 
